@@ -307,11 +307,12 @@ def mean_motion(mu, a):
 
 
 
-def m2e_iters(e, M, cap=100000):
+def m2e_iters(e, M, cap=100000, reduce=True):
     """number of passes of the Newton loop of Form.M2E (harness-side mirror, used ONLY to select inputs on which the
     loop runs long — never as an expected value)"""
     if e < 1:
-        M = M - TWO_PI * math.floor((M + math.pi) / TWO_PI)
+        if reduce:
+            M = M - TWO_PI * math.floor((M + math.pi) / TWO_PI)
         X = M - e if (-math.pi < M < 0 or M > math.pi) else M + e
         nx = lambda E: E + (M - E + e * math.sin(E)) / (1 - e * math.cos(E))
     else:
@@ -343,7 +344,8 @@ def slow_m2e_inputs(rng, ncand, ntop):
             elts[0] = rng.uniform(6.6e6, 9e6) / (1 - elts[1])
         dt = q(rng.uniform(-30, 30) * DAY)
         Mn = elts[5] + mean_motion(3.986009368e14, elts[0]) * dt
-        cands.append((m2e_iters(elts[1], Mn), elts, dt))
+        # ranked by the slower of: the loop as the code runs it now (anomaly reduced), and the loop on the unreduced anomaly
+        cands.append((max(m2e_iters(elts[1], Mn, cap=2000), m2e_iters(elts[1], Mn, cap=2000, reduce=False)), elts, dt))
     cands.sort(key=lambda c: -c[0])
     pick = cands[:ntop] + rng.sample(cands[ntop:ntop * 20], min(ntop // 2, len(cands[ntop:ntop * 20])))
     out = []
